@@ -119,9 +119,11 @@ CLAIMED.update({
          "reducers/middlewares; in every reachable world of the interleaving model (any programs, threads, capacity, "
          "schedule) the state is the latest write-back, under BlockOnFull enqueued = taken ++ queued as lists, and (C01_fold) "
          "for programs without runtime registration the write-backs are the sequential fold of the per-action pipeline over "
-         "the taken actions, each starting from the state the previous one left. Partial: the fold under runtime registration "
-         "is decided by engines L and F (add_reducer racing a slow reducer chain) and the C01 monitor (threading, "
-         "exactly-once, lossless, final state, reducer left out).", "5 C01",
+         "the taken actions, each starting from the state the previous one left; with runtime registration "
+         "(C01_fold_runtime_registration, every program and schedule) every write-back is the pipeline applied to the "
+         "previous write-back with registries between 'as when the action was taken' and 'as at the write-back'. Engines L "
+         "and F (add_reducer racing a slow reducer chain) and the C01 monitor (threading, exactly-once, lossless, final "
+         "state, reducer left out) tie this to the code.", "5 C01",
          "Coq invariants incl. the fold over histories + lockstep schedule replay (engine L) + free runs (engine F) + monitor"),
  "C02": ("Coq, every policy, program and schedule: what the reducer takes is an in-order subsequence of what entered the "
          "queue (C02_fifo), and in every reachable history every enqueue lies between the invocation and the return of a "
@@ -140,10 +142,11 @@ CLAIMED.update({
          "Coq history invariants (stream, snapshots, registry over histories) + lockstep schedule replay (engine L) + free runs (engine F) + stream monitor"),
  "C07": ("Coq: the callback order of one action in closed form (BR* R* BE* BD* N*), every reducer once in registration "
          "order; the notification calls follow the snapshot order (C03_stream) and a snapshot contains every live "
-         "registration (WorldRegistered.v). Partial: non-overlap of consecutive actions holds by construction of the single "
-         "reducer thread of the model; reducers/middlewares registered at run time are decided by engines L and F "
-         "(registration racing a slow reducer chain) and the C07 monitor (phase order, one context, registration order, "
-         "left-out).", "5 C07",
+         "registration (WorldRegistered.v); the reducer and middleware lists an action's write-back was computed with extend "
+         "the registries as they were when the action was taken, in registration order (C07_registered_never_left_out). "
+         "Partial: non-overlap of consecutive actions holds by construction of the single reducer thread of the model. "
+         "Engines L and F (registration racing a slow reducer chain) and the C07 monitor (phase order, one context, "
+         "registration order, left-out) tie this to the code.", "5 C07",
          "Coq pure theorem + history invariants + lockstep schedule replay (engine L) + free runs (engine F) + phase/left-out monitor"),
  "C09": ("Coq: the registry facts and the unsubscribe steps of the model; for programs with distinct registration "
          "identifiers, every schedule: never two registry entries per identifier, and a direct subscriber is released "
